@@ -21,6 +21,9 @@ import (
 
 const srsRD = 28992
 
+// rdLocalSRS: the same reference system registered under a file-local srs_id that differs from the organisation's code
+var rdLocalSRS = ggpkg.SpatialReferenceSystem{Name: "Amersfoort / RD New (local id)", ID: 100001, Organization: "EPSG", OrganizationCoordsysID: srsRD, Definition: "PROJCS[\"Amersfoort / RD New\"]", Description: "verif local"}
+
 var rdSRS = ggpkg.SpatialReferenceSystem{Name: "Amersfoort / RD New", ID: srsRD, Organization: "EPSG", OrganizationCoordsysID: srsRD, Definition: "PROJCS[\"Amersfoort / RD New\"]", Description: "verif"}
 
 type colDef struct {
